@@ -172,7 +172,7 @@ ROT = {0: (1, 0), 90: (0, 1), 180: (-1, 0), 270: (0, -1)}
 
 def cop(op) -> str:
     n = op[0]
-    if n == "getitem":
+    if n in ("getitem", "getitem_np"):
         return f"(OGet {croi(dec_sl(op[1]))})"
     if n == "pad":
         return f"(OPad {cz(op[1])} {coptz(op[2])})"
@@ -214,6 +214,15 @@ def fl(x):
     return float(F(x))
 
 
+def np_ints(roi):
+    """the same index with every int replaced by a numpy integer (as obtained from an array)"""
+    import numpy as np
+    kinds = [np.int64, np.int32, np.int16, np.intp]
+    if isinstance(roi, tuple):
+        return tuple(kinds[(i + abs(s)) % 4](s) if isinstance(s, int) else s for i, s in enumerate(roi))
+    return kinds[abs(roi) % 4](roi) if isinstance(roi, int) else roi
+
+
 def apply_op(g, op):
     from affine import Affine
     from odc.geo.geobox import scaled_down_geobox
@@ -221,6 +230,8 @@ def apply_op(g, op):
     n = op[0]
     if n == "getitem":
         return g[dec_sl(op[1])]
+    if n == "getitem_np":
+        return g[np_ints(dec_sl(op[1]))]
     if n == "pad":
         return g.pad(op[1], op[2])
     if n == "pad_wh":
@@ -255,7 +266,7 @@ def apply_op(g, op):
     raise ValueError(n)
 
 
-GCP_OPS = ("getitem", "pad", "pad_wh", "zoom_out", "zoom_to_shape", "zoom_to_n", "center_pixel")
+GCP_OPS = ("getitem", "getitem_np", "pad", "pad_wh", "zoom_out", "zoom_to_shape", "zoom_to_n", "center_pixel")
 
 
 def run_res(call):
@@ -268,6 +279,8 @@ def run_res(call):
         return "(Err (EAssert 0))", "AssertionError", None
     except (NotImplementedError, ZeroDivisionError) as e:
         return "(Err EOther)", type(e).__name__, None
+    except Exception as e:  # noqa: BLE001 - an unexpected exception is a result to compare, not a harness failure
+        return "(Err EOther)", "unexpected-" + type(e).__name__, None
     return f"(Ok {cgb(v)})", "ok", v
 
 
@@ -411,7 +424,9 @@ def gen_op(rng, g, malformed=False):
                                  "center_pixel"]
     n = rng.choice(names)
     if n == "getitem":
-        return [n, enc_sl(gen_roi(rng, ny, nx))]
+        roi = gen_roi(rng, ny, nx)
+        has_int = isinstance(roi, int) or (isinstance(roi, tuple) and any(isinstance(v, int) for v in roi))
+        return ["getitem_np" if has_int and rng.random() < 0.35 else n, enc_sl(roi)]
     if n == "pad":
         return [n, rng.choice([0, 1, 2, 3, 5, -1]), rng.choice([None, None, 0, 1, 4, -1])]
     if n == "pad_wh":
@@ -670,7 +685,7 @@ def expected_contract(g, op):
     ny, nx = int(g.shape[0]), int(g.shape[1])
     n = op[0]
     ident = lambda p: p
-    if n == "getitem":
+    if n in ("getitem", "getitem_np"):
         roi = dec_sl(op[1])
         if isinstance(roi, int):
             roi = (roi, slice(None))
@@ -1073,7 +1088,122 @@ def p_seq(kind, genc, M6, ops, seed=0):
 
 
 
-PREDICATES = {"op": p_op, "roundtrip": p_roundtrip, "views": p_views, "rotate": p_rotate, "gcp": p_gcp, "seq": p_seq}
+def p_zoom_to_int(kind, genc, M6, k):
+    """zoom_to(k), k a positive integer: the longest side becomes exactly k pixels, the other
+    ceil(other*k/longest) (>= 1), the grid is scaled by longest/k about pixel (0,0) (the factor is a
+    rounded float when the division is not exact: compared within 2^-45 relative), CRS kept, original covered"""
+    g = mk_gbox(genc) if kind == "linear" else mk_gcp(genc, M6, oracle="affine")
+    ny, nx = int(g.shape[0]), int(g.shape[1])
+    k = int(k)
+    if min(ny, nx) < 1 or k < 1:
+        return True, "outside the property's domain"
+    g2 = g.zoom_to(k)
+    nmax = max(ny, nx)
+    want = tuple(max(1, math.ceil(F(n * k, nmax))) for n in (ny, nx))
+    msgs = []
+    if (int(g2.shape[0]), int(g2.shape[1])) != want:
+        msgs.append(f"zoom_to({k}) of a {ny}x{nx} geobox has shape {tuple(g2.shape)}, expected {want} (longest side {k})")
+    f = F(nmax, k)
+    A, B = Aq(g), Aq(g2)
+    wantB = [A[0] * f, A[1] * f, A[2], A[3] * f, A[4] * f, A[5]]
+    for got, w in zip(B, wantB):
+        if abs(got - w) > abs(w) * F(1, 2 ** 45):
+            msgs.append(f"view affine {[float(v) for v in B]} is not the original scaled by {nmax}/{k}")
+            break
+    if tag_of(g2.crs) != tag_of(g.crs) or (g.crs is None) != (g2.crs is None):
+        msgs.append("crs changed")
+    return not msgs, "; ".join(msgs) if msgs else f"zoom_to({k}) ok: {tuple(g2.shape)}"
+
+
+def p_crop_by_geobox(genc, roi_enc):
+    """gbox[sub] with sub the geobox of the window gbox[roi] (built here from numpy selection and exact
+    affine arithmetic, not by the implementation) is that window: same shape, same affine, same CRS -
+    for geoboxes with and without CRS"""
+    from affine import Affine
+    from odc.geo.geobox import GeoBox
+    g = mk_gbox(genc)
+    A = Aq(g)
+    exp = expected_contract(g, ["getitem", roi_enc])
+    det = A[0] * A[4] - A[1] * A[3]
+    if exp is None or exp[1] is None or min(exp[0]) < 1 or not pow2(det) or not all_small(inverse_exact(A)):
+        return True, "outside the property's domain / exactness domain"
+    shape, pmap, _ = exp
+    o = pmap((F(0), F(0)))
+    W = [A[0], A[1], app(A, o)[0], A[3], A[4], app(A, o)[1]]
+    if not all_small(W):
+        return True, "outside the exactness domain"
+    sub = GeoBox(tuple(shape), Affine(*[float(v) for v in W]), genc["crs"])
+    got = g[sub]
+    msgs = []
+    if (int(got.shape[0]), int(got.shape[1])) != tuple(shape) or Aq(got) != W:
+        msgs.append(f"gbox[window geobox {tuple(shape)} at pixel ({o[0]},{o[1]})] is {tuple(got.shape)} with affine "
+                    f"{[str(v) for v in Aq(got)]}, expected the window itself, affine {[str(v) for v in W]}")
+    if tag_of(got.crs) != tag_of(g.crs) or (g.crs is None) != (got.crs is None):
+        msgs.append("crs changed")
+    return not msgs, "; ".join(msgs) if msgs else "crop by geobox ok"
+
+
+def world_resolution(T):
+    """(|x step|, |det| / |x step|) of a 3x3 pixel->world matrix; None when irrational"""
+    a, b, d, e = T[0][0], T[0][1], T[1][0], T[1][1]
+    if b == 0 and d == 0:
+        return (abs(a), abs(e))
+    l = fsqrt(a * a + d * d)
+    if l is None or l == 0:
+        return None
+    return (l, abs(a * e - b * d) / l)
+
+
+def p_gcp_zoom_res(kind, genc, M6, rx, ry):
+    """GCP geobox, exactly affine control points M, zoom_to(resolution=(rx, ry)): the pixel grid is scaled
+    about pixel (0,0) so that the world resolution becomes (|rx|, |ry|); the zoomed box covers the original up
+    to the snapping tolerance (0.01 pixel) with less than one extra pixel per axis; CRS and mapping are kept
+    (kind 'gcp': fit = the affine map, exact; 'gcp-fit': real Poly2d fit, bound 1e-6 relative)"""
+    from odc.geo.types import resxy_
+    g = mk_gcp(genc, M6, oracle="affine" if kind == "gcp" else "poly")
+    ny, nx = int(g.shape[0]), int(g.shape[1])
+    rx, ry = F(rx), F(ry)
+    A0 = [F(v) for v in genc["affine"]]
+    T = m3_mul(m3([F(v) for v in M6]), m3(A0))
+    cur = world_resolution(T)
+    if cur is None or min(ny, nx) < 1 or rx == 0 or ry == 0 or cur[0] == 0 or cur[1] == 0:
+        return True, "outside the property's domain"
+    g2 = g.zoom_to(resolution=resxy_(float(rx), float(ry)))
+    sx, sy = abs(rx) / cur[0], abs(ry) / cur[1]
+    my, mx = int(g2.shape[0]), int(g2.shape[1])
+    B = Aq(g2)
+    msgs = []
+    rel = F(0) if (kind == "gcp" and all_small([sx, sy] + [v * sx for v in A0] + [v * sy for v in A0])) else F(1, 10 ** 6)
+    wantB = [A0[0] * sx, A0[1] * sy, A0[2], A0[3] * sx, A0[4] * sy, A0[5]]
+    if any(abs(u - v) > rel * (abs(v) + 1) for u, v in zip(B, wantB)):
+        msgs.append(f"view affine {[float(v) for v in B]} is not the original view scaled by ({float(sx)}, {float(sy)}) "
+                    f"= {[float(v) for v in wantB]}")
+    for n, m, s_, nm in ((nx, mx, sx, "x"), (ny, my, sy, "y")):
+        q = F(n) / s_
+        if not (m >= 1 and m >= q - TOL_SNAP - rel * 100 and (m == 1 or m < q + 1 + rel * 100)):
+            msgs.append(f"{nm}: {m} pixels at scale {float(s_)} for {n} original pixels (needs ceil({float(q):.6g}))")
+    if tag_of(g2.crs) != tag_of(g.crs) or g2._mapping is not g._mapping:
+        msgs.append("crs / mapping not kept")
+    # footprints in world coordinates through the public views
+    if not msgs:
+        ob, nb = g.extent.boundingbox, g2.extent.boundingbox
+        slack = float(TOL_SNAP) * max(abs(float(rx)), abs(float(ry))) * 2 + 1e-6 * (1 + max(abs(v) for v in ob.bbox))
+        grow = max(abs(float(rx)), abs(float(ry))) * 2 + slack
+        if not (nb.left <= ob.left + slack and nb.bottom <= ob.bottom + slack and nb.right >= ob.right - slack
+                and nb.top >= ob.top - slack):
+            msgs.append(f"footprint {tuple(nb.bbox)} of the zoomed geobox does not cover the original {tuple(ob.bbox)}")
+        elif not (nb.left >= ob.left - grow and nb.bottom >= ob.bottom - grow and nb.right <= ob.right + grow
+                  and nb.top <= ob.top + grow):
+            msgs.append(f"footprint {tuple(nb.bbox)} of the zoomed geobox is far larger than the original {tuple(ob.bbox)}")
+        r2 = g2.resolution
+        if abs(abs(r2.x) - float(abs(rx))) > 1e-6 * float(abs(rx)) or abs(abs(r2.y) - float(abs(ry))) > 1e-6 * float(abs(ry)):
+            msgs.append(f"resolution of the zoomed geobox is {r2}, requested ({float(rx)}, {float(ry)})")
+    return not msgs, "; ".join(msgs) if msgs else f"gcp zoom_to(resolution) ok: {tuple(g2.shape)}"
+
+
+
+PREDICATES = {"op": p_op, "roundtrip": p_roundtrip, "views": p_views, "rotate": p_rotate, "gcp": p_gcp, "seq": p_seq, "zoom_to_int": p_zoom_to_int,
+              "crop_by_geobox": p_crop_by_geobox, "gcp_zoom_res": p_gcp_zoom_res}
 
 
 def call_pred(name, args):
@@ -1089,6 +1219,12 @@ def call_pred(name, args):
         return p_gcp(args["geobox"], args["M"], args["op"], args.get("seed", 0))
     if name == "seq":
         return p_seq(args["kind"], args["geobox"], args["M"], args["ops"], args.get("seed", 0))
+    if name == "zoom_to_int":
+        return p_zoom_to_int(args["kind"], args["geobox"], args.get("M"), args["k"])
+    if name == "crop_by_geobox":
+        return p_crop_by_geobox(args["geobox"], args["roi"])
+    if name == "gcp_zoom_res":
+        return p_gcp_zoom_res(args["kind"], args["geobox"], args["M"], args["rx"], args["ry"])
     raise ValueError(name)
 
 
@@ -1133,6 +1269,8 @@ def search(out, tier):
         e = dict(base, shape=[ny, nx])
         for i in range(-ny, ny):
             run("op", {"geobox": e, "op": ["getitem", i]})
+            run("op", {"geobox": e, "op": ["getitem_np", i]})
+            run("op", {"geobox": e, "op": ["getitem_np", enc_sl((i, slice(None, -nx - 1 if i % 2 else None)))]})
             for j in range(-nx, nx):
                 run("op", {"geobox": e, "op": ["getitem", enc_sl((i, j))]})
         for j in range(-nx, nx):
@@ -1234,6 +1372,53 @@ def search(out, tier):
             g = g2
         if len(q) >= 2:
             run("seq", {"kind": kind, "geobox": e, "M": M6, "ops": q, "seed": k})
+
+    # zoom_to(<int>): sizes for which longest / k is NOT an exact float (the exactness filter of the
+    # correspondence drops those), linear and GCP boxes
+    ident = ["1", "0", "0", "0", "1", "0"]
+    pairs = [(100, 50, 29), (100, 50, 31), (200, 7, 58), (1, 1, 49), (17, 3, 7), (3, 17, 29), (21, 21, 15), (15, 4, 26)]
+    for _ in range(120 if tier == "quick" else 1500):
+        a, b = rng.randint(1, 300), rng.randint(1, 300)
+        pairs.append((a, b, rng.randint(1, 2 * max(a, b))))
+    for i, (ny, nx, k) in enumerate(pairs):
+        c6, _ = gen_affine(rng)
+        e = {"shape": [ny, nx], "affine": [fs(v) for v in c6], "crs": CRS_LIST[i % 4]}
+        run("zoom_to_int", {"kind": "linear", "geobox": e, "k": k})
+        if i % 3 == 0:
+            eg = dict(e, affine=ident, crs=e["crs"] or "epsg:4326")
+            run("zoom_to_int", {"kind": "gcp", "geobox": eg, "M": [fs(v) for v in c6], "k": k})
+    # cropping by the geobox of a window gives that window, with and without CRS
+    for i in range(160 if tier == "quick" else 1600):
+        for _try in range(12):      # affines whose inverse is exact, windows that are in range and not empty
+            e, _ = gen_gbox_enc(rng)
+            A = [F(v) for v in e["affine"]]
+            ny, nx = e["shape"]
+            roi = (gen_slice(rng, ny), gen_slice(rng, nx)) if i % 3 else (gen_index(rng, ny), gen_slice(rng, nx))
+            exp = expected_contract(mk_gbox(e), ["getitem", enc_sl(roi)])
+            if pow2(A[0] * A[4] - A[1] * A[3]) and all_small(inverse_exact(A)) and exp is not None and exp[1] is not None:
+                break
+        if i % 2 == 0:
+            e["crs"] = None
+        run("crop_by_geobox", {"geobox": e, "roi": enc_sl(roi)})
+    for crs in (None, "epsg:3857"):
+        for aff in (["10", "0", "0", "0", "-10", "0"], ["0", "-2", "5", "2", "0", "1"], ["-1/2", "0", "3", "0", "1/2", "-4"]):
+            e = {"shape": [10, 20], "affine": aff, "crs": crs}
+            for roi in ((slice(2, 4), slice(3, 5)), (slice(None), slice(None)), (-1, slice(None)), (slice(-3, None), slice(0, 1))):
+                run("crop_by_geobox", {"geobox": e, "roi": enc_sl(roi)})
+    # GCPGeoBox.zoom_to(resolution=)
+    for mi, M in enumerate(MAPS):
+        for (ny, nx), view in (((10, 20), ident), ((6, 6), ["1", "0", "4", "0", "1", "2"]), ((5, 8), ["2", "0", "0", "0", "2", "0"]),
+                               ((1, 7), ident)):
+            e = {"shape": [ny, nx], "affine": view, "crs": ["epsg:3857", "epsg:4326", None][mi % 3]}
+            T = m3_mul(m3([F(v) for v in M]), m3([F(v) for v in view]))
+            cur = world_resolution(T)
+            if cur is None:
+                continue
+            for fx, fy in ((2, 2), (F(1, 2), F(1, 2)), (4, 2), (F(7, 10), F(7, 10)), (3, 5), (1, 1)):
+                args = {"geobox": e, "M": M, "rx": fs(cur[0] * fx), "ry": fs(-cur[1] * fy)}
+                run("gcp_zoom_res", dict(args, kind="gcp"))
+                if mi < 3:
+                    run("gcp_zoom_res", dict(args, kind="gcp-fit"))
 
 
 # ---------------------------------------------------------------- entry points
